@@ -1,6 +1,6 @@
 (** C08 - missing, default and skip: absent means absent, once, at the right place. *)
-From Deserr Require Import Base Pointer Kinds Value Prog Utf8 Scalars Types Deser Monitors.
-From Deserr.proofs Require Import C08Proofs.
+From Deserr Require Import Base Pointer Kinds Value Prog Utf8 Scalars Types Deser Monitors Spec.
+From Deserr.proofs Require Import C08Proofs RefineFields FieldsSpec.
 
 (** After the entry loop (any script, any state, if it was not stopped), the state of field i is
     Missing exactly when it started Missing - the field has no default - and no payload member
@@ -35,6 +35,40 @@ Theorem c08_struct_runs_fields : forall s val a ms l,
   = and_then (run_fields a (rfields_of (cs_fields s)) (cs_skipped s) (cs_deny s) OStruct ms l) (validate a val l).
 Proof. exact deser_struct_unfold. Qed.
 
+(** The value of a successful struct / variant (specification level; the interpreter refines it,
+    C02): the non-skipped fields in declaration order, each with the value it ended with (a member's
+    result or its default) passed through its [map] function, followed by the skipped fields, each
+    built from its default alone through its [map] function - the payload has no influence on them. *)
+Theorem c08_struct_value_shape : forall fs sk d mk ms l o,
+  s_out (s_fields fs sk d mk ms l) = Some o ->
+  let members := map (s_member fs d l) ms in
+  let vals := map (fun p => s_field_value (fst p) (snd p) members) (indexed_nat fs) in
+  exists v3,
+    map field_item (combine fs vals) = map toS v3
+    /\ o = mk (map built_field (v3 ++ map skipped_item sk)).
+Proof. exact struct_value_shape. Qed.
+
+(** a field whose effective key is absent ends with its default (or stays without a value) *)
+Theorem c08_absent_key_default : forall fs d l i f ms,
+  NoDup (map sp_key fs) -> NoDup (map fst ms) -> nth_error fs i = Some f ->
+  lookup_key (sp_key f) ms = None ->
+  s_field_value i f (map (s_member fs d l) ms)
+  = match sp_default f with FDValue o => Some (Some o) | FDMissing => None end.
+Proof. intros fs d l i f ms H1 H2 H3 H4. rewrite (field_filled_from_own_key fs d l i f ms H1 H2 H3), H4. reflexivity. Qed.
+
+Check c08_struct_value_shape : forall fs sk d mk ms l o,
+  s_out (s_fields fs sk d mk ms l) = Some o ->
+  let members := map (s_member fs d l) ms in
+  let vals := map (fun p => s_field_value (fst p) (snd p) members) (indexed_nat fs) in
+  exists v3,
+    map field_item (combine fs vals) = map toS v3
+    /\ o = mk (map built_field (v3 ++ map skipped_item sk)).
+Check c08_absent_key_default : forall fs d l i f ms,
+  NoDup (map sp_key fs) -> NoDup (map fst ms) -> nth_error fs i = Some f ->
+  lookup_key (sp_key f) ms = None ->
+  s_field_value i f (map (s_member fs d l) ms)
+  = match sp_default f with FDValue o => Some (Some o) | FDMissing => None end.
+
 Check c08_missing_state_iff : forall script a fs d keys l ms acc s,
   let rfs := rfields_of fs in
   let sts0 := map (fun f => state_of_default (rf_default f)) rfs in
@@ -53,3 +87,5 @@ Print Assumptions c08_missing_state_iff.
 Print Assumptions c08_selected_by_own_key.
 Print Assumptions c08_missing_reports.
 Print Assumptions c08_struct_runs_fields.
+Print Assumptions c08_struct_value_shape.
+Print Assumptions c08_absent_key_default.
